@@ -194,6 +194,16 @@ Theorem C07_stmt_witnesses_refuted :
 Proof. exact stmt_witnesses. Qed.
 Print Assumptions C07_stmt_witnesses_refuted.
 
+(** Composite literals of host-declared slice/array types: un-keyed elements continue from the
+    previous index, for all literals: only un-keyed, only keyed, a key followed by any number of
+    un-keyed elements (Y transcribes compositeBinSlice; it is Go's rule, the contract is met). *)
+Theorem C07_literal_index_full :
+  (forall n p, lit_indexes p (repeat None n) = seq p n)
+  /\ (forall ks p, lit_indexes p (map Some ks) = ks)
+  /\ (forall j n p, lit_indexes p (Some j :: repeat None n) = seq j (S n)).
+Proof. exact lit_all. Qed.
+Print Assumptions C07_literal_index_full.
+
 (** Refutations of the full statement on the faithful model (each replayed on the implementation). *)
 Theorem C07_variadic_empty_refuted :
   y_bind S2H cx0 ins_v true MInd [VStr (s "a")] = [VStr (s "a"); VSlice []]
